@@ -503,6 +503,28 @@ def r14c(ctx):
             ctx.violation("R14c", f.file, "get_filetype", g, "guess_type guarded",
                           f"mimetypes.guess_type(path) is evaluated although an explicit MIME type may have been "
                           f"given: the file's name can override --from-TYPE/--to-TYPE")
+    # a decorator wraps every call of get_filetype: what it does with the path before (or instead of) the lookup is part of it
+    mod_tree = m.mods[f.module] if hasattr(f, "module") else None
+    for d in f.node.decorator_list:
+        dn = dotted(d.func) if isinstance(d, ast.Call) else dotted(d)
+        D = next((x for x in (mod_tree.body if mod_tree is not None else []) if isinstance(x, ast.FunctionDef) and x.name == dn), None)
+        if D is None:
+            if dn and dn.split(".")[0] not in ("functools", "lru_cache", "cache"):
+                ctx.inconclusive("R14c", f.file, "get_filetype", d, f"decorator {dn}", f"get_filetype is wrapped by `{dn}`, which is not a function of this module")
+            elif dn:
+                ctx.violation("R14c", f.file, "get_filetype", d, f"decorator {dn}",
+                              f"get_filetype is memoised by `{dn}`: the answer for one (path, MIME type) pair outlives changes of the registry")
+            continue
+        for g in [n for n in ast.walk(D) if isinstance(n, ast.Call) and (call_name(n) or "").endswith("guess_type")]:
+            facts = flatten_conditions(dominating_conditions(g))
+            ok = any(pol and isinstance(t, ast.Compare) and dotted(t.left) == mime and isinstance(t.ops[0], ast.Is)
+                     and isinstance(t.comparators[0], ast.Constant) and t.comparators[0].value is None for t, pol in facts)
+            if ok:
+                ctx.proved("R14c", f.file, dn, g, "guess_type guarded", f"the decorator consults the path only under `{mime} is None`")
+            else:
+                ctx.violation("R14c", f.file, dn, g, "guess_type guarded",
+                              f"`{dn}`, which wraps get_filetype, evaluates mimetypes.guess_type(path) although an explicit MIME type may "
+                              f"have been given: the file's name can override (or veto) --from-TYPE/--to-TYPE")
     # stores to the mime variable other than from guess_type, and the returned lookup
     for n in walk_no_nested(f.node):
         if isinstance(n, ast.Return) and n.value is not None:
